@@ -388,7 +388,10 @@ def pytest_sessionfinish(session, exitstatus):
         for snapshot in state().snapshots.values():
             all_categories = set()
             for change in snapshot._changes():
-                changes[change.flag].append(change)
+                if snapshot._expr is not None:
+                    # the code can only be changed if the calling expression is known
+                    # (it is not known for doctests or exec)
+                    changes[change.flag].append(change)
                 all_categories.add(change.flag)
 
             for category in all_categories:
